@@ -20,6 +20,7 @@ RULE = ("for each transfer kind {RETR, STOR, APPE, LIST, MLSD} x file size aroun
         "400 kB download / upload after 0..7 blocks and goes on (list, download, upload, PWD, QUIT on the same client).  distinct = distinct (kind, position, reply sequence, "
         "bytes moved) signatures; every sub-run sends an ABOR, so all are non-trivial.")
 RULE += ("  " + "Also: a back end that acknowledges writes late; wait_future_timeout=None; the executor back end; the next transfer on the same listener; aioftp's own Client.abort().")
+RULE += ("  " + 'Also (round 7): ABOR while the worker sleeps behind a speed limit; a second ABOR and / or PWD written in one piece with the ABOR (answered after it, in order; executor jobs and back-end calls with a duration).')
 ASSUMPTIONS = [
     "in-memory network model; the peer is a raw FTP client, not aioftp's",
     "reply shapes accepted: [1xx, C, 226] with C in {2xx, 425, 426, 451} or [4xx/5xx, 226]; anything else, a missing or "
